@@ -296,16 +296,17 @@ Definition pre_cp_als (s : vec) (rank : Z) (init : initk) (dimorder : option vec
 Definition pre_cp_apr (s : vec) (rank : Z) (init : initk) (alg_ok : bool) : bool :=
   (0 <? rank) && pre_cp_init s rank init false && alg_ok.
 Definition pre_hosvd (s : vec) (ranks : option vec) (dimorder : option vec) : bool :=
-  match ranks with None => true | Some r => (zlen r =? ndim s) && forallb (fun p => (1 <=? fst p) && (fst p <=? snd p)) (combine r s) end &&
+  match ranks with None => true | Some r => zlen r =? ndim s end &&
   match dimorder with None => true | Some o => is_permb (ndim s) o end.
 Definition pre_tucker_als (s : vec) (ranks : vec) (init : initk) (dimorder : option vec) (maxiters : Z) : bool :=
   let N := ndim s in
   let rk := if zlen ranks =? 1 then np_full N (sz ranks 0) else ranks in
-  (zlen rk =? N) && forallb (fun p => (1 <=? fst p) && (fst p <=? snd p)) (combine rk s) && (0 <=? maxiters) &&
+  (zlen rk =? N) && (0 <=? maxiters) &&
   match dimorder with None => true | Some o => is_permb N o end &&
   match init with
   | InitRandom | InitNvecs => true
-  | InitList ms => (zlen ms =? N) && factors_fit s ms rk (np_arange 0 N)
+  | InitList ms => (zlen ms =? N) &&          (* the first mode in dimorder is recomputed: its guess is unused *)
+      factors_fit s ms rk (filter (fun n => negb (n =? match dimorder with Some (f :: _) => f | _ => 0 end)) (np_arange 0 N))
   | _ => false
   end.
 Definition pre_gcp_opt (s : vec) (rank : Z) (init : initk) (opt_ok : bool) : bool :=
